@@ -29,7 +29,7 @@ TIERS = {"quick": dict(runs=3000, budget_s=40, shrink=60),
          "thorough": dict(runs=300000, budget_s=600, shrink=100)}
 REQUIRED_PROBES = ["clock_reversed", "clock_forward", "dt_not_dividing", "spell_run", "malformed_refused"]
 MALFORMED = ["PT", "PT5", "5S", "PT5X", "PTS", "P5S", "PT5S3", "five", "PT1M2H", [], [5], [5, "s", 7],
-             [5, "furlongs"], {"seconds": 5}]
+             [5, "furlongs"], {"seconds": 5}, [10, "M"], [1, "Y"]]
 UNITS = {"s": 1, "m": 60, "h": 3600, "D": 86400}
 
 RUN_PROFILE = gen.profile(nsteps=(2, 16), p_reversed=0.3, p_land=0.2, p_subgrid=0.1, rows=(1, 4), p_continuous=0.5,
